@@ -317,8 +317,8 @@ def shape_of(c, k, d, key, pre_img, ops, synced):
     if act is None or d.get("flush_active_at_begin") is None:
         return "window-unknown"
     ncomp = (c.samples[k - 1][2] if k > 0 else 0) or 0
-    if pre_img is not None and (act == 0 or ncomp >= 2):
-        # reads are reliable (no flush suspended), or two compactions already completed
+    if pre_img is not None and (act == 0 or (ncomp >= 2 and d["done"])):
+        # reads are reliable (no flush suspended), or d had returned and two compactions already completed
         allowed, _ = allowed_values(ops, synced, key)
         if pre_img[KEYS.index(key)] not in allowed:
             return "live-state-already-wrong"
@@ -486,28 +486,55 @@ def offsets_for(policy, cfg, ops0, ties):
     return sorted(set(offs))
 
 
-def workloads_for(policy, cfg, ops0, max_ops, ties):
-    """All workloads whose writer 0 runs ``ops0``: solo, and with every writer-1 sequence that keeps the
-    total <= max_ops at every start offset."""
-    yield ((0, ops0),)
-    rest = max_ops - len(ops0)
-    if rest < 1:
+def workloads_for(policy, cfg, spec, ties):
+    """spec = (ops0, n1, first1): writer 0 runs ops0; n1 == 0: alone; else writer 1 runs every sequence of n1
+    ops that begins with op ``first1`` at every start offset."""
+    ops0, n1, first1 = spec
+    if n1 == 0:
+        yield ((0, ops0),)
         return
     offs = offsets_for(policy, cfg, ops0, ties)
-    for n1 in range(1, rest + 1):
-        for ops1 in op_sequences(n1):
-            for off in offs:
-                yield ((0, ops0), (off, ops1))
+    for tail in op_sequences(n1 - 1):
+        ops1 = (first1,) + tail
+        for off in offs:
+            yield ((0, ops0), (off, ops1))
 
 
 def _work(job):
-    policy, cfg, ops0_list, max_ops, ties = job
+    policy, cfg, specs, ties = job
     st = new_stats()
-    for ops0 in ops0_list:
-        for wl in workloads_for(policy, cfg, ops0, max_ops, ties):
+    for spec in specs:
+        for wl in workloads_for(policy, cfg, spec, ties):
             st["workloads"] += 1
             explore_workload(policy, cfg, wl, st)
     return st
+
+
+def make_jobs(policy, cfgs, max_ops, ties, keysym):
+    """Independent sub-spaces, batched to roughly equal weight.  Together they cover: every ops0 of length
+    1..max_ops (solo) and every (ops0, ops1) with len(ops0)+len(ops1) <= max_ops, both non-empty."""
+    jobs = []
+    for cfg in cfgs:
+        batch, weight = [], 0
+        for n0 in range(1, max_ops + 1):
+            seqs = list(op_sequences(n0))
+            if keysym:
+                # key-renaming symmetry a<->b: writer 0's first op is on key a
+                seqs = [q for q in seqs if q[0][1] == "a"]
+            for ops0 in seqs:
+                specs = [((ops0, 0, None), 1)]
+                for n1 in range(1, max_ops - n0 + 1):
+                    for first1 in OPKINDS:
+                        specs.append(((ops0, n1, first1), 4 ** (n1 - 1) * 3 * n0 * (2 if ties else 1)))
+                for spec, w in specs:
+                    batch.append(spec)
+                    weight += w
+                    if weight >= 48:
+                        jobs.append((policy, cfg, batch, ties))
+                        batch, weight = [], 0
+        if batch:
+            jobs.append((policy, cfg, batch, ties))
+    return jobs
 
 
 def run_driver(run, name, policy, cfgs, max_ops, ties, seed, keysym=False):
@@ -521,17 +548,7 @@ def run_driver(run, name, policy, cfgs, max_ops, ties, seed, keysym=False):
                                                     "delivery instants of writer 0's solo run"
                                                     + (" + those instants (ties)" if ties else "")),
                           "crash_points": "every k in [0, N]", "horizon_events": MAX_EVENTS})
-    jobs = []
-    for cfg in cfgs:
-        for n0 in range(1, max_ops + 1):
-            seqs = list(op_sequences(n0))
-            if keysym:
-                # key-renaming symmetry a<->b: writer 0's first op is on key a
-                seqs = [q for q in seqs if q[0][1] == "a"]
-            # small chunks: the number of writer-1 completions per ops0 shrinks with n0
-            per = 1 if n0 <= 2 else (4 if n0 == 3 else 16)
-            for i in range(0, len(seqs), per):
-                jobs.append((policy, cfg, seqs[i:i + per], max_ops, ties))
+    jobs = make_jobs(policy, cfgs, max_ops, ties, keysym)
     jobs = rotate(jobs, seed)
     states, outcomes = set(), set()
     extra = {"workloads": 0, "crash_points_with_flush_suspended": 0, "workloads_with_op_begun_during_flush": 0,
@@ -592,14 +609,17 @@ def main(tier, seed, only=None):
                            "constant latencies memtable application order equals log order",
                            "a crash kills the writer processes: the simulation is not resumed after recovery",
                            "private attribute _immutable_memtables is read only to name the window in fingerprints"])
-    max_ops = 4 if tier == "quick" else 5
-    cfgs = CFG_QUICK if tier == "quick" else CFG_THOROUGH
-    ties = tier != "quick"
-    for policy in rotate(list(POLICIES), seed):
-        name = f"crashpoints-{policy}"
+    if tier == "quick":
+        drivers = [(f"crashpoints-{p}", p, CFG_QUICK, 4, False, True) for p in POLICIES]
+    else:
+        # depth: 5 ops, ties, the two base configurations (key symmetry);
+        # breadth: 4 ops, ties, NO symmetry reduction, all four configurations
+        drivers = [(f"crashpoints-{p}", p, CFG_QUICK, 5, True, True) for p in POLICIES]
+        drivers += [(f"allkeys-{p}", p, CFG_THOROUGH, 4, True, False) for p in POLICIES]
+    for (name, policy, cfgs, max_ops, ties, keysym) in rotate(drivers, seed):
         if only and name not in only:
             continue
-        run_driver(run, name, policy, cfgs, max_ops, ties, seed, keysym=(tier == "quick"))
+        run_driver(run, name, policy, cfgs, max_ops, ties, seed, keysym=keysym)
     return run.finish()
 
 
